@@ -821,11 +821,11 @@ class DerivedValue(ExperimentalValue):
                 "Cannot assign a {} to the error!".format(type(relative_error).__name__))
         if relative_error < 0:
             raise ValueError("The error must be a positive real number!")
-        new_error = self.value * float(relative_error)
+        value = self.value
+        new_error = abs(value) * float(relative_error)
         warnings.warn(
             "You are trying to override the propagated relative error of a derived quantity."
             " This value is casted to a regular Measurement")
-        value = self.value
         self.__class__ = MeasuredValue  # casting it to MeasuredValue
         self.value, self.error = value, new_error
 
